@@ -20,7 +20,7 @@ SPECS = {
     "MLPModel": [{}, {"gemini": "tv_ova", "n_hidden_dim": 5}], "MLPMMD": [{"kernel": "poly_p"}], "MLPWasserstein": [{"ovo": True}],
     "SparseLinearModel": [{"alpha": 1.0}], "SparseLinearMMD": [{"alpha": 0.5, "groups": [[0, 1]]}], "SparseLinearMI": [{}],
     "SparseMLPModel": [{"alpha": 1.0, "M": 0.5}], "SparseMLPMMD": [{"dynamic": True}],
-    "Kauri": [{}, {"max_clusters": 4, "kernel": "rbf"}, {"max_depth": 1}],
+    "Kauri": [{}, {"max_clusters": 4, "kernel": "rbf"}, {"max_depth": 1}, {"kernel": "pre_psd", "_timestamps": True}],
     "Douglas": [{}, {"n_cuts": 2, "temperature": 1.0}, {"feature_mask": [True, False, True]}],
 }
 
@@ -28,11 +28,21 @@ SPECS = {
 def predict_case(case):
     name, si, seed = case
     spec = dict(SPECS[name][si], random_state=seed, max_iter=4) if name != "Kauri" else dict(SPECS[name][si], random_state=seed)
+    spec = dict(spec)
     n, d = 5, 3
     Xtr = seams.tiny_data(n, d, seed + 40)
     Xnew = seams.tiny_data(5, d, seed + 41) * 1.5
     Xbig = seams.tiny_data(8, d, seed + 42) * 1.2        # more rows than the training set
+    if spec.pop("_timestamps", False):
+        # a feature of large magnitude whose values differ by less than float32 resolution (epoch-like time stamps)
+        Xtr = Xtr.copy()
+        Xnew = Xnew.copy()
+        Xtr[:, 0] = 1.7e9 + 7.0 * np.arange(n)
+        Xnew[:, 0] = 1.7e9 + 7.0 * np.arange(5) + 3.0
     model, y, _ = C.build(name, spec, Xtr, seed)
+    if name == "Kauri" and SPECS[name][si].get("_timestamps"):
+        Z = Xtr - Xtr.mean(0)
+        y = Z @ Z.T
     model.fit(Xtr, y)
     where = dict(estimator=name, spec=str(SPECS[name][si]))
     v, n_eval = [], 0
